@@ -63,9 +63,10 @@ theorem len_preserved (e : Env) (n : Nat) : Preserved e (fun st => n ≤ st.file
       · exact h
     · exact h
 
-/-- every chunk marked valid is present: its extent lies in the file and hashes to its index checksum -/
+/-- every chunk with stored bytes that is marked valid is present: its extent lies in the file and hashes to its index
+checksum (a chunk without stored bytes has no extent; the scan marks an empty dictionary entry valid unconditionally) -/
 def AllOk (e : Env) (file : Bytes) (valid : List Int) : Prop :=
-  ∀ k tc, e.hdr.chunks[k]? = some tc → valid.getD k 0 = 1 → ChunkOk e file tc
+  ∀ (k : Nat) (tc : Chunk), e.hdr.chunks[k]? = some tc → tc.compLen ≠ 0 → valid.getD k 0 = 1 → ChunkOk e file tc
 
 /-- **one feeding session keeps every valid chunk present and makes chunks valid only through their checksum** —
 for arbitrary response bytes, fragmentation and regex answers -/
@@ -73,14 +74,14 @@ theorem session_allOk (e : Env) (hd : Disj e) (st : St) (lines frags : List Byte
     (h1 : st.tgtCheck = none) (h2 : st.writeInChunk = 0) (hok : AllOk e st.file st.valid) :
     let fin := (feed e stop clear (feedHdrs e st lines []).2 frags []).2
     AllOk e fin.file fin.valid := by
-  intro fin k tc htc hv
+  intro fin k tc htc hzz hv
   by_cases hv0 : st.valid.getD k 0 = 1
   · -- valid before: its bytes are untouched
     have hc := (C05.confined e st lines frags stop clear h1 h2).1
     have hlen : st.file.length ≤ fin.file.length :=
       pres_feed e (len_preserved e st.file.length) stop clear frags _ []
         (pres_feedHdrs e (len_preserved e st.file.length) lines st [] (Nat.le_refl _))
-    have h0 := hok k tc htc hv0
+    have h0 := hok k tc htc hzz hv0
     unfold ChunkOk at h0 ⊢
     split
     · rename_i hz; simpa [hz] using h0
@@ -110,10 +111,12 @@ theorem disj_ridx (H : HashFn) (rx : Rx) (th : Hdr) (r1 r2 : List RChunk) :
 theorem session_sound (e : Env) (hd : Disj e) (file : Bytes) (valid : List Int) (lines frags : List Bytes)
     (hok : AllOk e file valid) :
     AllOk e (session e file valid lines frags).2.2.file (session e file valid lines frags).2.2.valid ∧
-    (∀ k, valid.getD k 0 = 1 → (session e file valid lines frags).2.2.valid.getD k 0 = 1) := by
+    (∀ k, valid.getD k 0 = 1 → (session e file valid lines frags).2.2.valid.getD k 0 = 1) ∧
+    (∀ i, i < e.dataOff → (session e file valid lines frags).2.2.file.getD i 0 = file.getD i 0) := by
   unfold session
-  exact ⟨session_allOk e hd { file := file, pos := 0, valid := valid } lines frags true false rfl rfl hok,
-    (C05.confined e { file := file, pos := 0, valid := valid } lines frags true false rfl rfl).2⟩
+  have hc := C05.confined e { file := file, pos := 0, valid := valid } lines frags true false rfl rfl
+  exact ⟨session_allOk e hd { file := file, pos := 0, valid := valid } lines frags true false rfl rfl hok, hc.2,
+    fun i hi => hc.1 i (fun _ _ _ _ => Or.inl (by omega))⟩
 
 /-- a round that transfers anything ends in the state of a session in an environment with this hash function and header -/
 theorem round_some (H : HashFn) (rx : Rx) (B : Bytes) (th : Hdr) (limit : Int) (frag : Nat) (cut : Option Nat) (file : Bytes) (valid : List Int)
@@ -144,11 +147,12 @@ theorem round_sound (H : HashFn) (rx : Rx) (B : Bytes) (th : Hdr) (limit : Int) 
     (hd : Disj (envOf H rx th [])) (hok : AllOk (envOf H rx th []) file valid)
     (r : String) (f : Bytes) (v : List Int) (ok : Bool)
     (h : Update.round H rx B th limit frag cut file valid = (r, some (f, v, ok))) :
-    AllOk (envOf H rx th []) f v ∧ (∀ k, valid.getD k 0 = 1 → v.getD k 0 = 1) := by
+    AllOk (envOf H rx th []) f v ∧ (∀ k, valid.getD k 0 = 1 → v.getD k 0 = 1) ∧
+    (∀ i, i < th.lead + th.headerLen → f.getD i 0 = file.getD i 0) := by
   obtain ⟨ridx, lines, frags, rfl, rfl⟩ := round_some H rx B th limit frag cut file valid r f v ok h
   have := session_sound (envOf H rx th ridx) ((disj_ridx H rx th [] ridx).mp hd) file valid lines frags
     ((allOk_ridx H rx th [] ridx file valid).mp hok)
-  exact ⟨(allOk_ridx H rx th ridx [] _ _).mp this.1, this.2⟩
+  exact ⟨(allOk_ridx H rx th ridx [] _ _).mp this.1, this.2.1, this.2.2⟩
 
 /-- **the fetch loop**: by induction over the rounds -/
 theorem loop_sound (H : HashFn) (rx : Rx) (B : Bytes) (th : Hdr) (limit : Int) (frag : Nat) (drop : Option (Nat × Nat))
@@ -156,27 +160,28 @@ theorem loop_sound (H : HashFn) (rx : Rx) (B : Bytes) (th : Hdr) (limit : Int) (
     AllOk (envOf H rx th []) file valid →
     let out := Update.loop H rx B th limit frag drop fuel file valid reqs n
     AllOk (envOf H rx th []) out.1 out.2.1 ∧ (∀ k, valid.getD k 0 = 1 → out.2.1.getD k 0 = 1) ∧
-    (out.2.2.2.2 = none → countEq out.2.1 0 = 0)
+    (out.2.2.2.2 = none → countEq out.2.1 0 = 0) ∧
+    (∀ i, i < th.lead + th.headerLen → out.1.getD i 0 = file.getD i 0)
   | 0, file, valid, reqs, n, hok => by
     intro out
     simp only [out, Update.loop]
-    exact ⟨hok, fun _ h => h, fun h => by simp at h⟩
+    exact ⟨hok, fun _ h => h, fun h => by simp at h, fun _ _ => trivial⟩
   | fuel + 1, file, valid, reqs, n, hok => by
     intro out
     simp only [out]
     unfold Update.loop
     split
     · rename_i h0
-      exact ⟨hok, fun _ h => h, fun _ => h0⟩
+      exact ⟨hok, fun _ h => h, fun _ => h0, fun _ _ => rfl⟩
     · split
-      · exact ⟨hok, fun _ h => h, fun h => by simp at h⟩
+      · exact ⟨hok, fun _ h => h, fun h => by simp at h, fun _ _ => rfl⟩
       · rename_i r f v heq
         have := round_sound H rx B th limit frag _ file valid hd hok r f v false heq
-        exact ⟨this.1, this.2, fun h => by simp at h⟩
+        exact ⟨this.1, this.2.1, fun h => by simp at h, this.2.2⟩
       · rename_i r f v heq
         have hr := round_sound H rx B th limit frag _ file valid hd hok r f v true heq
         have ih := loop_sound H rx B th limit frag drop hd fuel f v (r :: reqs) (n + 1) hr.1
-        exact ⟨ih.1, fun k hk => ih.2.1 k (hr.2 k hk), ih.2.2⟩
+        exact ⟨ih.1, fun k hk => ih.2.1 k (hr.2.1 k hk), ih.2.2.1, fun i hi => by rw [ih.2.2.2 i hi, hr.2.2 i hi]⟩
 
 /-! ### non-vacuity (tests on a concrete instance, labelled as tests) -/
 
@@ -193,10 +198,10 @@ example : Disj (envOf toyH toyRx toyHdr []) ∧ AllOk (envOf toyH toyRx toyHdr [
   refine ⟨disj_of_runFrom _ (by simp [envOf, toyHdr, C13.RunFrom]), ?_⟩
   intro k
   match k with
-  | 0 => intro tc _ hv; simp at hv
-  | 1 => intro tc _ hv; simp at hv
-  | 2 => intro tc htc _; simp [envOf, toyHdr] at htc; subst htc; simp [ChunkOk, envOf, toyHdr, Env.dataOff, toyH]
-  | k + 3 => intro tc htc _; simp [envOf, toyHdr] at htc
+  | 0 => intro tc _ _ hv; simp at hv
+  | 1 => intro tc _ _ hv; simp at hv
+  | 2 => intro tc htc _ _; simp [envOf, toyHdr] at htc; subst htc; simp [ChunkOk, envOf, toyHdr, Env.dataOff, toyH]
+  | k + 3 => intro tc htc _ _; simp [envOf, toyHdr] at htc
 
 /-- TEST: one transfer on that state (request: chunk 1; body in 2-byte fragments): the file becomes B, all chunks valid -/
 example : (session (envOf toyH toyRx toyHdr (mkRidx [(1, 3)] 0)) [9, 9, 9, 9, 9, 9, 7, 7, 7, 4, 5] [0, 0, 1] [] [[1, 2], [3]]).2.2.file = toyB ∧
